@@ -302,6 +302,7 @@ pub fn random_rln_witness(tree_height: usize) -> RLNWitnessInput {
 
 pub fn proof_values_from_witness(rln_witness: &RLNWitnessInput) -> Result<RLNProofValues> {
     message_id_range_check(&rln_witness.message_id, &rln_witness.user_message_limit)?;
+    merkle_path_check(&rln_witness.path_elements, &rln_witness.identity_path_index)?;
 
     // y share
     let a_0 = rln_witness.identity_secret;
@@ -627,6 +628,7 @@ pub fn inputs_for_witness_calculation(
     rln_witness: &RLNWitnessInput,
 ) -> Result<[(&str, Vec<Fr>); 7]> {
     message_id_range_check(&rln_witness.message_id, &rln_witness.user_message_limit)?;
+    merkle_path_check(&rln_witness.path_elements, &rln_witness.identity_path_index)?;
 
     let mut identity_path_index = Vec::with_capacity(rln_witness.identity_path_index.len());
     rln_witness
@@ -662,7 +664,8 @@ pub fn generate_proof(
     // If in debug mode, we measure and later print time take to compute witness
     #[cfg(test)]
     let now = Instant::now();
-    let full_assignment = calculate_rln_witness(inputs, graph_data);
+    let full_assignment = calculate_rln_witness(inputs, graph_data)
+        .map_err(|e| ProofError::WitnessError(Report::msg(e)))?;
 
     #[cfg(test)]
     println!("witness generation took: {:.2?}", now.elapsed());
@@ -804,6 +807,21 @@ pub fn rln_witness_to_bigint_json(rln_witness: &RLNWitnessInput) -> Result<serde
     });
 
     Ok(inputs)
+}
+
+/// Checks that a Merkle path has one direction value per path element and only binary direction values
+pub fn merkle_path_check(path_elements: &[Fr], identity_path_index: &[u8]) -> Result<()> {
+    if path_elements.len() != identity_path_index.len() {
+        return Err(color_eyre::Report::msg(
+            "path elements and path indexes have different lengths",
+        ));
+    }
+    for i in 0..identity_path_index.len() {
+        if identity_path_index[i] > 1 {
+            return Err(color_eyre::Report::msg("path index is not 0 or 1"));
+        }
+    }
+    Ok(())
 }
 
 pub fn message_id_range_check(message_id: &Fr, user_message_limit: &Fr) -> Result<()> {
